@@ -1486,6 +1486,137 @@ fn linear_has_float_var(model: &Model, vars: &[VarId]) -> bool {
     })
 }
 
+/// Post one reified float linear propagator on `b` for `sum(coeffs[i] * vars[i]) (op) constant`.
+/// They exist for `==`, `<=` and `!=`; `>=`, `>` and `<` are rewritten to `<=` the way the
+/// un-reified `LinearFloat` constraint rewrites them.
+fn post_float_linear_if(
+    model: &mut Model,
+    coeffs: Vec<f64>,
+    vars: Vec<VarId>,
+    op: &ComparisonOp,
+    constant: f64,
+    b: VarId,
+) -> PropId {
+    let negated = |coeffs: &[f64]| -> Vec<f64> { coeffs.iter().map(|c| -c).collect() };
+    match op {
+        ComparisonOp::Eq => model.props.float_lin_eq_reif(coeffs, vars, constant, b),
+        ComparisonOp::Le => model.props.float_lin_le_reif(coeffs, vars, constant, b),
+        ComparisonOp::Ne => model.props.float_lin_ne_reif(coeffs, vars, constant, b),
+        ComparisonOp::Ge => model.props.float_lin_le_reif(negated(&coeffs), vars, -constant, b),
+        ComparisonOp::Lt => {
+            let epsilon = crate::variables::domain::float_interval::precision_to_step_size(model.float_precision_digits);
+            model.props.float_lin_le_reif(coeffs, vars, constant - epsilon, b)
+        }
+        ComparisonOp::Gt => {
+            let epsilon = crate::variables::domain::float_interval::precision_to_step_size(model.float_precision_digits);
+            model.props.float_lin_le_reif(negated(&coeffs), vars, -constant - epsilon, b)
+        }
+    }
+}
+
+/// Post `b <=> sum(coeffs[i] * vars[i]) (op) constant` over float variables.
+///
+/// The reified float linear propagators prune only while their boolean is true (a false boolean
+/// is merely checked once every variable is fixed), so the opposite comparison is reified on the
+/// negated boolean as well: whichever way `b` is decided, the comparison that then holds prunes.
+fn post_reified_float_linear(
+    model: &mut Model,
+    coeffs: Vec<f64>,
+    vars: Vec<VarId>,
+    op: &ComparisonOp,
+    constant: f64,
+    b: VarId,
+) -> PropId {
+    let opposite = match op {
+        ComparisonOp::Eq => ComparisonOp::Ne,
+        ComparisonOp::Ne => ComparisonOp::Eq,
+        ComparisonOp::Lt => ComparisonOp::Ge,
+        ComparisonOp::Le => ComparisonOp::Gt,
+        ComparisonOp::Gt => ComparisonOp::Le,
+        ComparisonOp::Ge => ComparisonOp::Lt,
+    };
+    post_float_linear_if(model, coeffs.clone(), vars.clone(), op, constant, b);
+    let not_b = model.bool_not(b);
+    post_float_linear_if(model, coeffs, vars, &opposite, constant, not_b)
+}
+
+/// Reify a constraint: the returned boolean variable is 1 exactly when `kind` holds.
+///
+/// This is what `Or` and `Not` are built from. Only the comparisons are reified: the auxiliary
+/// variables of compound expressions, and the arithmetic propagators that define them, are posted
+/// as they are for an un-reified comparison (they define values, they do not restrict the operands).
+fn reify_constraint_kind(model: &mut Model, kind: &ConstraintKind) -> VarId {
+    match kind {
+        ConstraintKind::Binary { left, op, right } => {
+            let left_var = get_expr_var(model, left);
+            let right_var = get_expr_var(model, right);
+            let b = model.bool();
+            if linear_has_float_var(model, &[left_var, right_var]) {
+                // The Int*Reif propagators step by whole numbers: a comparison with a float side is
+                // reified as the float linear constraint `left - right (op) 0`
+                post_reified_float_linear(model, vec![1.0, -1.0], vec![left_var, right_var], op, 0.0, b);
+            } else {
+                match op {
+                    ComparisonOp::Eq => model.props.int_eq_reif(left_var, right_var, b),
+                    ComparisonOp::Ne => model.props.int_ne_reif(left_var, right_var, b),
+                    ComparisonOp::Lt => model.props.int_lt_reif(left_var, right_var, b),
+                    ComparisonOp::Le => model.props.int_le_reif(left_var, right_var, b),
+                    ComparisonOp::Gt => model.props.int_gt_reif(left_var, right_var, b),
+                    ComparisonOp::Ge => model.props.int_ge_reif(left_var, right_var, b),
+                };
+            }
+            b
+        }
+        ConstraintKind::And(left, right) => {
+            let left_b = reify_constraint_kind(model, &left.kind);
+            let right_b = reify_constraint_kind(model, &right.kind);
+            model.bool_and(&[left_b, right_b])
+        }
+        ConstraintKind::Or(left, right) => {
+            let left_b = reify_constraint_kind(model, &left.kind);
+            let right_b = reify_constraint_kind(model, &right.kind);
+            model.bool_or(&[left_b, right_b])
+        }
+        ConstraintKind::Not(constraint) => {
+            let inner_b = reify_constraint_kind(model, &constraint.kind);
+            model.bool_not(inner_b)
+        }
+        ConstraintKind::LinearInt { coeffs, vars, op, constant } => {
+            let b = model.bool();
+            if linear_has_float_var(model, vars) {
+                // Same as the un-reified LinearInt: over float variables this is a float linear constraint
+                let float_coeffs: Vec<f64> = coeffs.iter().map(|&c| c as f64).collect();
+                post_reified_float_linear(model, float_coeffs, vars.clone(), op, *constant as f64, b);
+            } else {
+                // `>=`, `>` and `<` are rewritten to `<=` like the un-reified LinearInt
+                let negated = || -> Vec<i32> { coeffs.iter().map(|c| -c).collect() };
+                match op {
+                    ComparisonOp::Eq => model.props.int_lin_eq_reif(coeffs.clone(), vars.clone(), *constant, b),
+                    ComparisonOp::Le => model.props.int_lin_le_reif(coeffs.clone(), vars.clone(), *constant, b),
+                    ComparisonOp::Ne => model.props.int_lin_ne_reif(coeffs.clone(), vars.clone(), *constant, b),
+                    ComparisonOp::Ge => model.props.int_lin_le_reif(negated(), vars.clone(), -constant, b),
+                    ComparisonOp::Gt => model.props.int_lin_le_reif(negated(), vars.clone(), -constant - 1, b),
+                    ComparisonOp::Lt => model.props.int_lin_le_reif(coeffs.clone(), vars.clone(), constant - 1, b),
+                };
+            }
+            b
+        }
+        ConstraintKind::LinearFloat { coeffs, vars, op, constant } => {
+            let b = model.bool();
+            post_reified_float_linear(model, coeffs.clone(), vars.clone(), op, *constant, b);
+            b
+        }
+        // The remaining kinds are posted through their own Model methods and have no reified form.
+        // A `Constraint` only ever holds Binary / And / Or / Not, so they cannot be reached from
+        // `and` / `or` / `not`; should one arrive here it is posted as it stands and reported true
+        // (the result can lose solutions of the enclosing `or` / `not`, it never admits a wrong one).
+        _ => {
+            materialize_constraint_kind(model, kind);
+            model.int(1, 1)
+        }
+    }
+}
+
 /// Materialize a constraint AST into propagators
 /// This is the actual implementation that creates propagators from AST
 /// Called by Model::materialize_pending_asts() to convert delayed ASTs into propagators
@@ -1580,15 +1711,16 @@ pub(crate) fn materialize_constraint_kind(model: &mut Model, kind: &ConstraintKi
                 }
             }
             
-            // For general OR cases, we need proper reification (not yet implemented)
-            // For now, fall back to posting both constraints (which may conflict for some cases)
-            materialize_constraint_kind(model, &left.kind);
-            materialize_constraint_kind(model, &right.kind)
+            // General case: reify both sides, at least one of the two booleans is true
+            let left_b = reify_constraint_kind(model, &left.kind);
+            let right_b = reify_constraint_kind(model, &right.kind);
+            let either = model.bool_or(&[left_b, right_b]);
+            model.props.equals(either, Val::ValI(1))
         }
         ConstraintKind::Not(constraint) => {
-            // For NOT, we need to use boolean variables and logic
-            // This is a simplified implementation - a full implementation would use reification
-            materialize_constraint_kind(model, &constraint.kind)
+            // Reify the constraint: its boolean is false
+            let inner_b = reify_constraint_kind(model, &constraint.kind);
+            model.props.equals(inner_b, Val::ValI(0))
         }
         
         // =================== Phase 2: Extended Constraint Types ===================
